@@ -73,10 +73,9 @@ Definition line_of (crlf : bool) (r : bytes) : option (bytes * Z) :=
 Definition is_space (b : Z) : bool := ((9 <=? b) && (b <=? 13)) || (b =? 32).
 Definition is_digit (b : Z) : bool := (48 <=? b) && (b <=? 57).
 Definition is_sign (b : Z) : bool := (b =? 43) || (b =? 45).
-(* bytes after which the two token rules may differ (exponents, hex, inf/nan, '_', non-ASCII):
-   e E p P x X _ n N i I and >= 128.  Reading a number next to one of them is Unsupported. *)
-Definition num_unsup (b : Z) : bool :=
-  (128 <=? b) || existsb (Z.eqb b) [101;69;112;80;120;88;95;110;78;105;73].
+(* The exponent part ("e", "E") is not modelled: reading a number next to one of these bytes is
+   Unsupported.  (The code reads decimal numerals only: no hex, inf, nan.) *)
+Definition num_unsup (b : Z) : bool := existsb (Z.eqb b) [101;69].
 
 Fixpoint span (p : Z -> bool) (r : bytes) : bytes * bytes :=
   match r with
@@ -180,8 +179,7 @@ Definition s_write1 (app : bool) (cp : bytes * Z) (s : bytes) : bytes * Z :=
 Definition seek_target (w : whence) (off pos size : Z) : Z :=
   match w with WSet => off | WCur => pos + off | WEnd => size + off end.
 
-(* The results of flush/setvbuf on a handle that is not writable are not fixed by the property;
-   they are given here as gopher-lua gives them (nil, message). *)
+(* flush/setvbuf succeed on every open handle (fflush/setvbuf on a stream that is only read). *)
 Definition sstep (crlf : bool) (c : bytes) (h : shandle) (o : op) : bytes * shandle * res :=
   if s_closed h then (c, h, RRaise) else
   match o with
@@ -201,8 +199,8 @@ Definition sstep (crlf : bool) (c : bytes) (h : shandle) (o : op) : bytes * shan
   | OSeek w off =>
     let np := seek_target w off (s_pos h) (len c) in
     if np <? 0 then (c, h, RFail) else (c, s_setpos h np, ROff np)
-  | OFlush => (c, h, if s_wr h then RTrue else RFail)
-  | OSetvbuf _ _ => (c, h, if s_wr h then RTrue else RFail)
+  | OFlush => (c, h, RTrue)
+  | OSetvbuf _ _ => (c, h, RTrue)
   | OClose => (c, mkS (s_pos h) (s_rd h) (s_wr h) (s_app h) true, RTrue)
   end.
 
